@@ -252,6 +252,35 @@ fn charclass_family(b: &mut Builder, tier: Tier) {
 pub fn c12(tier: Tier) -> Vec<Case> {
     let mut b = Builder::new();
     charclass_family(&mut b, tier);
+    // what the directives of a rule denote when they meet override markers and each other, in every order
+    {
+        let leaves = c02_leaves();
+        let inputs = InputSpec::Strings { alphabet: vec!['a', 'b', 'c'], max_len: if tier == Tier::Quick { 5 } else { 6 } };
+        let bodies = vec![
+            seq(vec![lit("c"), over("X"), lit("c")]),
+            over("X"),
+            choice(vec![seq(vec![lit("c"), over("X")]), over("Y")]),
+            seq(vec![lit("c"), field("f", "X"), opt(lit("c"))]),
+            seq(vec![over("X"), opt(lit("c"))]),
+        ];
+        let dsets: Vec<Vec<Directive>> = vec![
+            vec![Directive::String, Directive::NoSkipWs],
+            vec![Directive::NoSkipWs, Directive::String],
+            vec![Directive::String],
+            vec![Directive::String, Directive::NoSkipWs, Directive::Position],
+            vec![Directive::Position, Directive::NoSkipWs, Directive::String],
+            vec![Directive::Memoize, Directive::String, Directive::NoSkipWs],
+            vec![Directive::NoSkipWs],
+        ];
+        for body in &bodies {
+            for ds in &dsets {
+                let mut l = vec![Rule::normal("R", ds.clone(), body.clone())];
+                l.extend(leaves.iter().cloned());
+                let g = root_grammar(vec![Directive::Export, Directive::NoSkipWs, Directive::Position], seq(vec![field("r", "R"), opt(field("t", "R"))]), &l);
+                add_if_wf(&mut b, "directive-semantics", g, &inputs);
+            }
+        }
+    }
     let pool = ['\r', '\n', '\t', 'b', '\\', '\''];
     let inputs = InputSpec::Strings { alphabet: vec!['\r', '\n', '\t', 'b', '\\', '\''], max_len: 3 };
     let spell = |c: char, escaped: bool| -> LitChar {
